@@ -44,8 +44,16 @@ RowBad(r) == \E i \in 1..Len(r) : IsBad(r[i])
 (* ORDER BY: sorted permutation *)
 
 \* three-way comparison of two column values; "u" when the documentation gives no order
+\* integers too long for TLC arithmetic (tag "I", canonical decimal text) order by sign, length, digits
+DecText(v) == IF v.t = "I" THEN v.s ELSE IntText(v.n)
+MagLess(x, y) == Len(x) < Len(y) \/ (Len(x) = Len(y) /\ LexLess(x, y))
+DecLess(x, y) == LET nx == x[1] = 45  ny == y[1] = 45 IN
+                 IF nx /\ ~ny THEN TRUE ELSE IF ~nx /\ ny THEN FALSE
+                 ELSE IF nx THEN MagLess(Tail(y), Tail(x)) ELSE MagLess(x, y)
 ValCmp(a, b) ==
-  IF a.t = "s" /\ b.t = "s" THEN (IF a.s = b.s THEN "eq" ELSE IF LexLess(a.s, b.s) THEN "lt" ELSE "gt")
+  IF a.t \in {"i", "I"} /\ b.t \in {"i", "I"} /\ "I" \in {a.t, b.t} THEN
+       (IF DecText(a) = DecText(b) THEN "eq" ELSE IF DecLess(DecText(a), DecText(b)) THEN "lt" ELSE "gt")
+  ELSE IF a.t = "s" /\ b.t = "s" THEN (IF a.s = b.s THEN "eq" ELSE IF LexLess(a.s, b.s) THEN "lt" ELSE "gt")
   ELSE IF IsNum(a) /\ IsNum(b) THEN (IF NumEq(a, b) THEN "eq" ELSE IF NumLess(a, b) THEN "lt" ELSE "gt")
   ELSE IF a.t = "b" /\ b.t = "b" THEN (IF a.n = b.n THEN "eq" ELSE IF a.n < b.n THEN "lt" ELSE "gt")
   ELSE "u"
